@@ -107,6 +107,14 @@ CLAIMED = {
          "arities and sizes against the equation set (nothing dropped, duplicated or renamed). The C model is tied to the artefact by gcc -Wall "
          "compilation of every configuration and a four-way bit-exact differential run (shared object, casadi.Function, both Lean programs).",
          "DESIGN.md §2 C09", "translation validation: C text -> IR, casadi.Function -> IR, Lean 4 rfl theorem per program + differential execution of the compiled C"),
+ "C19": ("proof", "Lean 4 soundness theorems, by structural induction over ALL expression trees, for a hand model of both converters "
+         "(lean/Model/Symbolic.lean: one constructor per Python type / CasADi opcode the code dispatches on): whenever sympy_to_casadi / "
+         "casadi_to_sympy returns an expression it has the same real value as its input for every assignment of the symbols and every "
+         "interpretation of the user functions (the map registered under a name is the one applied); everything else is rejected. Includes the "
+         "exact identities behind the fmod and IEEE-remainder translations (ties to even). The model is tied to cyecca/symbolic.py on every run "
+         "by differential runs over grammar-generated trees in both directions: success/rejection must agree and the converted expressions must "
+         "take the same values at sample points; the same runs search for a failing expression on the real code.",
+         "DESIGN.md §2 C19", "Lean 4 proof over a hand-written model + correspondence check (differential runs of model and implementation on generated expression trees)"),
 }
 checks = []
 for pid, (cat, text, ref, tech) in CLAIMED.items():
